@@ -61,9 +61,9 @@ FromBody(M, tf, obj) ==
 FromPrimField(F, tf, acc) ==
   LET a == Lookup(tf, F.attr)
       t == FromPrimBody(F, a)
-  IN IF a.k = "missing" THEN [acc EXCEPT !.dg = Append(@, Diag("readMissing", F.path))]
+  IN IF F.placeholder THEN acc   \* GenerateFields skips the placeholder of a message without fields
+     ELSE IF a.k = "missing" THEN [acc EXCEPT !.dg = Append(@, Diag("readMissing", F.path))]
      ELSE IF ~TypedAs(F, a) THEN [acc EXCEPT !.dg = Append(@, Diag("readConversion", F.path))]
-     ELSE IF F.placeholder THEN acc
      ELSE IF F.oneof # "" THEN
         \* do not set an empty oneof value: it would override a branch set by another attribute
         (IF Known(a) THEN [acc EXCEPT !.obj = SetPath(@, <<F.oneof>>, One(F.name, t))] ELSE acc)
